@@ -65,6 +65,8 @@ type Server struct {
 	rateMu        sync.Mutex // serializes the rate limit accounting, separate from mu so Shutdown can wait for handlers
 	rateLimit     *cache.Cache[string, *rateLimitEntry]
 
+	stopped bool // Shutdown was called while no listener was published (guarded by mu)
+
 	// manifest put and delete update the index and the referrers response in several store calls: they hold
 	// indexMu for writing, the handlers that read the index hold it for reading, so every request sees and
 	// leaves the index and the referrers of a repository in a state that requests run one at a time produce
@@ -93,6 +95,10 @@ func (s *Server) Run(ctx context.Context) error {
 	defer s.mu.Unlock()
 	if s.httpServer != nil {
 		return fmt.Errorf("server is already running, run shutdown first")
+	}
+	if s.stopped {
+		// Shutdown came first (a termination signal during startup): do not start a listener nobody will stop
+		return nil
 	}
 	s.log.Info("launching server", "addr", s.conf.HTTP.Addr)
 	hs := &http.Server{
@@ -124,6 +130,8 @@ func (s *Server) Shutdown(ctx context.Context) error {
 	s.mu.Lock()
 	defer s.mu.Unlock()
 	if s.httpServer == nil {
+		// remember the request: a Run that has not published its listener yet returns instead of serving
+		s.stopped = true
 		return fmt.Errorf("server is not running")
 	}
 	err := s.httpServer.Shutdown(ctx)
